@@ -18,17 +18,57 @@ pub fn vx_filter_count<I: Iterator, P: FnMut(&I::Item) -> bool>(it: I, p: P) -> 
 {
     it.filter(p).count()
 }
-/// it.find_map(f): the first Some(_) that f produces, in iteration order
+pub open spec fn first_some<B>(outs: Seq<Option<B>>) -> Option<B>
+    decreases outs.len()
+{
+    if outs.len() == 0 { None } else if outs[0] is Some { outs[0] } else { first_some(outs.drop_first()) }
+}
+pub proof fn lemma_first_some<B>(outs: Seq<Option<B>>)
+    ensures match first_some(outs) {
+        Some(b) => exists|i: int| 0 <= i < outs.len() && #[trigger] outs[i] == Some(b) && forall|j: int| 0 <= j < i ==> (#[trigger] outs[j]) is None,
+        None => forall|j: int| 0 <= j < outs.len() ==> (#[trigger] outs[j]) is None,
+    },
+    decreases outs.len()
+{
+    if outs.len() == 0 {
+    } else if outs[0] is Some {
+        assert(outs[0] == Some(outs[0]->Some_0));
+    } else {
+        let rest = outs.drop_first();
+        lemma_first_some(rest);
+        match first_some(rest) {
+            Some(b) => {
+                let i = choose|i: int| 0 <= i < rest.len() && #[trigger] rest[i] == Some(b) && forall|j: int| 0 <= j < i ==> (#[trigger] rest[j]) is None;
+                assert(outs[i + 1] == rest[i]);
+                assert forall|j: int| 0 <= j < i + 1 implies (#[trigger] outs[j]) is None by { if j > 0 { assert(outs[j] == rest[j - 1]); } }
+            },
+            None => {
+                assert forall|j: int| 0 <= j < outs.len() implies (#[trigger] outs[j]) is None by { if j > 0 { assert(outs[j] == rest[j - 1]); } }
+            },
+        }
+    }
+}
+/// it.find_map(f): the first Some(_) that f produces, in iteration order.  Stated for ANY sequence of results that f's
+/// postcondition forces (the caller never has to name the closure).
 #[verifier::external_body]
 pub fn vx_find_map<I: Iterator, B, F: FnMut(I::Item) -> Option<B>>(it: I, f: F) -> (r: Option<B>)
     ensures
-        vstd::std_specs::iter::IteratorSpec::obeys_prophetic_iter_laws(&it) ==> match r {
-            Some(b) => exists|i: int| 0 <= i < vstd::std_specs::iter::IteratorSpec::remaining(&it).len()
-                && f.ensures((#[trigger] vstd::std_specs::iter::IteratorSpec::remaining(&it)[i],), Some(b))
-                && forall|j: int| 0 <= j < i ==> f.ensures((#[trigger] vstd::std_specs::iter::IteratorSpec::remaining(&it)[j],), None),
-            None => forall|j: int| 0 <= j < vstd::std_specs::iter::IteratorSpec::remaining(&it).len() ==> f.ensures((#[trigger] vstd::std_specs::iter::IteratorSpec::remaining(&it)[j],), None),
-        },
+        vstd::std_specs::iter::IteratorSpec::obeys_prophetic_iter_laws(&it) ==> forall|outs: Seq<Option<B>>|
+            outs.len() == vstd::std_specs::iter::IteratorSpec::remaining(&it).len()
+            && (forall|i: int, o: Option<B>| 0 <= i < outs.len() && f.ensures((vstd::std_specs::iter::IteratorSpec::remaining(&it)[i],), o) ==> o == outs[i])
+            ==> r == #[trigger] first_some(outs),
 {
     let mut it = it;
     it.find_map(f)
+}
+/// it.copied().chain(v).collect::<Vec<_>>(): the items of `it` (copied), then the items of v
+#[verifier::external_body]
+pub fn vx_copied_chain_collect<'a, T: Copy + 'a, I: Iterator<Item = &'a T>>(it: I, v: Vec<T>) -> (r: Vec<T>)
+    ensures
+        vstd::std_specs::iter::IteratorSpec::obeys_prophetic_iter_laws(&it) ==>
+            r@.len() == vstd::std_specs::iter::IteratorSpec::remaining(&it).len() + v@.len()
+            && (forall|i: int| 0 <= i < vstd::std_specs::iter::IteratorSpec::remaining(&it).len() ==> #[trigger] r@[i] == *vstd::std_specs::iter::IteratorSpec::remaining(&it)[i])
+            && (forall|i: int| 0 <= i < v@.len() ==> #[trigger] r@[vstd::std_specs::iter::IteratorSpec::remaining(&it).len() + i] == v@[i]),
+{
+    it.copied().chain(v).collect()
 }
